@@ -1222,7 +1222,11 @@ def thread_constant_flags(prog, body):
         return None
     flags = {l for l, rvs in defs.items() if l > nargs and l not in reffed and rvs and all(const_bool(rv) is not None for rv in rvs)
              and (raw["locals"][l].get("ty") == "bool")}
-    if not flags:
+    # bools that are *sometimes* assigned a constant (the result of an inlined `a && b` predicate: `r = false` on one path,
+    # `r = <comparison>` on the other): only their constant-assigning predecessors are threaded
+    partial = {l for l, rvs in defs.items() if l > nargs and l not in reffed and l not in flags and (raw["locals"][l].get("ty") == "bool")
+               and any(const_bool(rv) is not None for rv in rvs)}
+    if not flags and not partial:
         return body
     new = json.loads(json.dumps(raw))
     blocks = new["blocks"]
@@ -1323,6 +1327,159 @@ def thread_constant_flags(prog, body):
                 blocks.append(clone)
                 P["term"] = dict(P["term"], target=len(blocks) - 1)
                 changed = True
+    # partial flags: thread the predecessors whose own last assignment to the tested bool is a constant
+    for si in range(n0):
+        S = blocks[si]
+        t = S["term"]
+        if S.get("cleanup") or t["k"] != "switch" or t["discr"]["k"] not in ("move", "copy") or t["discr"]["pl"]["p"]:
+            continue
+        d = t["discr"]["pl"]["l"]
+        F, neg = None, False
+        if d in partial:
+            F = d
+        else:
+            ds_ = [s_ for s_ in S["stmts"] if s_["k"] == "assign" and not s_["dst"]["p"] and s_["dst"]["l"] == d]
+            if len(ds_) == 1:
+                rv = ds_[0]["rv"]
+                if rv["k"] == "unop" and rv.get("op") == "Not" and rv["a"]["k"] in ("move", "copy") and not rv["a"]["pl"]["p"] and rv["a"]["pl"]["l"] in partial:
+                    F, neg = rv["a"]["pl"]["l"], True
+                elif rv["k"] == "use" and rv["a"]["k"] in ("move", "copy") and not rv["a"]["pl"]["p"] and rv["a"]["pl"]["l"] in partial:
+                    F = rv["a"]["pl"]["l"]
+        if F is None or any(s_["k"] == "assign" and not s_["dst"]["p"] and s_["dst"]["l"] == F for s_ in S["stmts"]):
+            continue
+        for pi in range(n0):
+            P = blocks[pi]
+            if P.get("cleanup") or pi == si or P["term"]["k"] != "goto":
+                continue
+            tgt = P["term"]["target"]
+            hops = 0
+            while tgt != si and hops < 3 and not blocks[tgt]["stmts"] and blocks[tgt]["term"]["k"] == "goto":
+                tgt = blocks[tgt]["term"]["target"]
+                hops += 1
+            if tgt != si:
+                continue
+            val = None
+            for s_ in P["stmts"]:
+                if s_["k"] == "assign" and not s_["dst"]["p"] and s_["dst"]["l"] == F:
+                    val = const_bool(s_["rv"])
+            if val is None:
+                continue
+            dv = int((not val) if neg else val)
+            dest = t["otherwise"]
+            for v_, tg in t["arms"]:
+                if v_ == dv:
+                    dest = tg
+            clone = {"stmts": json.loads(json.dumps(S["stmts"])), "cleanup": False, "term": {"k": "goto", "target": dest, "sp": t.get("sp")}}
+            blocks.append(clone)
+            P["term"] = dict(P["term"], target=len(blocks) - 1)
+            changed = True
+    if not changed:
+        return body
+    nb = Body(prog, new, track_mut=body.track_mut)
+    nb.inlined = True
+    nb.inlined_from = set(getattr(body, "inlined_from", ()))
+    return nb
+
+
+
+def lower_checked_arith(prog, body):
+    """`match a.checked_sub(b) { Some(x) => .., None => .. }` spelled out for the integer engines: the call becomes the comparison
+    `a < b`, the switch on the Option's discriminant becomes a switch on that comparison (true → the None arm, false → the Some
+    arm), and every read of the payload `(o as Some).0` becomes `a - b` (which cannot wrap on that arm).  Only applied when the
+    Option local has no other use."""
+    raw = body.raw
+    cand = []
+    for bi, blk in enumerate(raw["blocks"]):
+        t = blk["term"]
+        if blk.get("cleanup") or t["k"] != "call" or t.get("target") is None or t["dst"]["p"]:
+            continue
+        c = t["callee"]
+        if (c.get("name") != "checked_sub") or len(t["args"]) != 2:
+            continue
+        a, b_ = t["args"]
+        okop = lambda o: (o["k"] == "const" and "int" in o["c"]) or (o["k"] in ("move", "copy") and not o["pl"]["p"])
+        if not (okop(a) and okop(b_)):
+            continue
+        cand.append((bi, t["dst"]["l"], a, b_))
+    if not cand:
+        return body
+    new = json.loads(json.dumps(raw))
+    blocks = new["blocks"]
+    changed = False
+    for bi, O, a, b_ in cand:
+        # every occurrence of O: the call's dst, `discr(O)` statements, payload reads
+        uses_ok = True
+        discr_sites, payload_sites = [], []
+
+        def scan(o, where):
+            nonlocal uses_ok
+            if isinstance(o, dict):
+                if o.get("l") == O and "p" in o:
+                    kind = None
+                    p_ = o["p"]
+                    if len(p_) == 2 and isinstance(p_[0], dict) and "downcast" in p_[0] and isinstance(p_[1], dict) and p_[1].get("field") == 0:
+                        kind = "payload"
+                    elif not p_:
+                        kind = "whole"
+                    where.append(kind)
+                for v in o.values():
+                    scan(v, where)
+            elif isinstance(o, list):
+                for v in o:
+                    scan(v, where)
+        for xi, blk in enumerate(blocks):
+            for si, s_ in enumerate(blk["stmts"]):
+                w = []
+                scan(s_, w)
+                if not w:
+                    continue
+                rv = s_.get("rv") or {}
+                if s_["k"] == "assign" and rv.get("k") == "discr" and rv["pl"]["l"] == O and not rv["pl"]["p"] and w == ["whole"]:
+                    discr_sites.append((xi, si))
+                elif s_["k"] == "assign" and rv.get("k") == "use" and w == ["payload"] and rv["a"]["k"] in ("move", "copy"):
+                    payload_sites.append((xi, si))
+                elif s_["k"] in ("storage_live", "storage_dead", "nop"):
+                    continue
+                else:
+                    uses_ok = False
+            w = []
+            tt = {k: v for k, v in blk["term"].items() if k not in ("callee",)}
+            scan(tt, w)
+            if w and not (xi == bi and w == ["whole"]):
+                uses_ok = False
+        if not uses_ok or len(discr_sites) != 1:
+            continue
+        dbb, dsi = discr_sites[0]
+        dl = blocks[dbb]["stmts"][dsi]["dst"]["l"]
+        sw = blocks[dbb]["term"]
+        if sw["k"] != "switch" or sw["discr"]["k"] not in ("move", "copy") or sw["discr"]["pl"]["l"] != dl or sw["discr"]["pl"]["p"]:
+            continue
+        some_t = [tg for v, tg in sw["arms"] if v == 1]
+        none_t = [tg for v, tg in sw["arms"] if v == 0]
+        if some_t and not none_t:
+            none_tgt, some_tgt = sw["otherwise"], some_t[0]
+        elif none_t and not some_t:
+            none_tgt, some_tgt = none_t[0], sw["otherwise"]
+        elif none_t and some_t:
+            none_tgt, some_tgt = none_t[0], some_t[0]
+        else:
+            continue
+        # new bool local  c = a < b
+        cl = len(new["locals"])
+        new["locals"].append({"ty": "bool", "flags": ["bool"], "mutable": False})
+        acopy = a if a["k"] == "const" else {"k": "copy", "pl": a["pl"]}
+        bcopy = b_ if b_["k"] == "const" else {"k": "copy", "pl": b_["pl"]}
+        call_blk = blocks[bi]
+        sp = call_blk["term"].get("sp")
+        call_blk["stmts"].append({"k": "assign", "dst": {"l": cl, "p": []}, "rv": {"k": "binop", "op": "Lt", "a": acopy, "b": bcopy}, "sp": sp})
+        call_blk["term"] = {"k": "goto", "target": call_blk["term"]["target"], "sp": sp}
+        blocks[dbb]["stmts"][dsi] = {"k": "nop", "sp": sp}
+        blocks[dbb]["term"] = {"k": "switch", "discr": {"k": "move", "pl": {"l": cl, "p": []}}, "arms": [[0, some_tgt]], "otherwise": none_tgt,
+                               "discr_ty": "bool", "sp": sw.get("sp")}
+        for xi, si in payload_sites:
+            st = blocks[xi]["stmts"][si]
+            st["rv"] = {"k": "binop", "op": "Sub", "a": acopy, "b": bcopy}
+        changed = True
     if not changed:
         return body
     nb = Body(prog, new, track_mut=body.track_mut)
